@@ -626,6 +626,12 @@ const SHARED_OPS: [LendOp; 8] = [
 ];
 
 fn lending_mock() -> (Unimock, Vec<u32>) {
+    let (u, ids) = lending_mock_verifying();
+    (u.no_verify_in_drop(), ids)
+}
+
+/// The same mock with verification in drop left on (clones inherit that setting: their teardown runs in `Drop`).
+fn lending_mock_verifying() -> (Unimock, Vec<u32>) {
     let shared_a = Val::new();
     let shared_b = Val::new();
     let ids = vec![shared_a.id, shared_b.id];
@@ -642,8 +648,7 @@ fn lending_mock() -> (Unimock, Vec<u32>) {
             .each_call(matching!(_))
             .answers(&|u: &mut Unimock, _x: u8| u.make_mut(Val::new())),
         LMock::l_num.each_call(matching!(_)).returns(41u32),
-    ))
-    .no_verify_in_drop();
+    ));
     (u, ids)
 }
 
@@ -782,7 +787,10 @@ pub fn gen_lend_ops(rng: &mut Rng, n: usize) -> Vec<LendOp> {
 /// Sequential C13 scenario on the original and one clone.
 pub fn run_c13_seq(rng: &mut Rng, n_ops: usize, steps_done: &mut u64) -> Result<(), String> {
     toks::reset();
-    let (original, shared_ids) = lending_mock();
+    // how the instances go away at the end: 0 = the clone while its thread unwinds from a user panic, 1 = the original
+    // while its thread unwinds, otherwise both normally. Lent values must be dropped exactly once in every case.
+    let ending = rng.below(4);
+    let (original, shared_ids) = if ending <= 1 { lending_mock_verifying() } else { lending_mock() };
     let clone = original.clone();
     let mut insts = vec![original, clone];
     let mut chain_ids: Vec<Vec<u32>> = vec![vec![], vec![]];
@@ -847,9 +855,19 @@ pub fn run_c13_seq(rng: &mut Rng, n_ops: usize, steps_done: &mut u64) -> Result<
             }
         }
     }
-    // drop the clone first: only its own chain goes away
+    // drop the clone first: only its own chain goes away (also when that happens during unwinding)
     let clone = insts.pop().unwrap();
-    drop(clone);
+    if ending == 0 {
+        let r = guarded(move || {
+            let _owned = clone;
+            std::panic::panic_any(crate::universe::UserPanic("c13-unwinding-drop"));
+        });
+        if r.is_ok() {
+            return Err("the injected user panic did not propagate".into());
+        }
+    } else {
+        drop(clone);
+    }
     for id in &chain_ids[1] {
         if toks::drops(*id) != 1 {
             return Err(format!("value {id} of the dropped clone has drop count {}", toks::drops(*id)));
@@ -863,7 +881,19 @@ pub fn run_c13_seq(rng: &mut Rng, n_ops: usize, steps_done: &mut u64) -> Result<
         }
     }
     let original = insts.pop().unwrap();
-    drop(original);
+    match ending {
+        0 => drop(original.no_verify_in_drop()),
+        1 => {
+            let r = guarded(move || {
+                let _owned = original;
+                std::panic::panic_any(crate::universe::UserPanic("c13-unwinding-drop"));
+            });
+            if r.is_ok() {
+                return Err("the injected user panic did not propagate".into());
+            }
+        }
+        _ => drop(original),
+    }
     for (id, i) in toks::all_infos().iter().enumerate() {
         if i.drops != 1 {
             return Err(format!("value {id} was dropped {} times in total", i.drops));
